@@ -146,6 +146,27 @@ def is_args_var(t, var):
                 return i0['k'] == 'Call' and (callee_name(i0) or '').split('::')[-1] in ('parse', 'parse_from')
     return False
 
+def args_fields(t, crate):
+    """variables bound by destructuring the parsed command line: `let Args { input, undirected, .. } = Args::parse();` (or `= args;`)
+    -> {var: field name}"""
+    out = {}
+    if t is None or crate is None: return out
+    for b in walk(t['body']):
+        if b['k'] != 'Block': continue
+        for st in b['stmts']:
+            if st['k'] != 'Let' or st.get('init') is None: continue
+            q = unwrap_pat(st['pat'])
+            if q['k'] != 'Leaf' or 'adt' not in q: continue
+            i0 = strip(st['init'])
+            if not ((i0['k'] == 'Call' and (callee_name(i0) or '').split('::')[-1] in ('parse', 'parse_from')) or (i0['k'] in ('VarRef', 'UpvarRef') and is_args_var(t, i0['var']))): continue
+            adt = crate.adts.get(canon(q['adt']))
+            if adt is None or len(adt['variants']) != 1: continue
+            fs = adt['variants'][0]['fields']
+            for sp in q['subs']:
+                b_ = unwrap_pat(sp['pat'])
+                if b_['k'] == 'Binding' and sp['field'] < len(fs): out[b_['var']] = fs[sp['field']]['name']
+    return out
+
 CRATE_FOR_CLOSURES = [None]      # the crate whose closures the atomizer may read (set by the rule that uses it)
 
 class Atomizer:
@@ -156,6 +177,7 @@ class Atomizer:
         self.roles = roles or {}
         self.places = places
         self.crate = CRATE_FOR_CLOSURES[0]
+        self.argf = args_fields(t, self.crate)
     def norm(self, e):
         """readable normal form of a value expression: strips borrows, clones, to_string; local names for plain values are
         replaced by the value, variables with a known role by the role's name, fields of the parsed command line by args.<field>"""
@@ -165,6 +187,7 @@ class Atomizer:
             if pl is not None and pl in self.roles: return self.roles[pl]
         if e['k'] in ('VarRef', 'UpvarRef'):
             if e['var'] in self.roles: return self.roles[e['var']]
+            if e['var'] in self.argf: return 'args.' + self.argf[e['var']]
             if e['var'] in self.lets: return self.norm(self.lets[e['var']])
         if e['k'] == 'Field' and self.t is not None:
             b = strip(e['lhs'])
@@ -970,6 +993,32 @@ def rule_max_clique_templates(F, R):
         R.violation('max_clique_gen::main / L / unexpected template %s' % ' '.join(k), 'L', 'emitted text %r tokenises to %s, which is not part of the reference skeleton of the clique formula' % (got[k][0][0], ' '.join(k)), got[k][0][1])
     R.sample({'rule': 'L templates', 'pieces': {' '.join(k): v[0][0] for k, v in got.items()}})
 
+def written_text(call):
+    """(text, remaining arguments) of one `write!`/`writeln!`: the template with every hole whose argument is a string literal filled
+    in (`writeln!(w, "{} G {{", keyword)` of an inlined helper called with "graph" is `graph G {`); a write without holes is its text"""
+    import engine_u
+    tm = [y for y in walk(call) if y['k'] == 'Literal' and y.get('lit') == 'ByteStr']
+    if not tm:
+        lits = [y['value'] for y in walk(call) if y['k'] == 'Literal' and y.get('lit') == 'Str']
+        return (lits[0], []) if lits else (None, [])
+    args = None
+    for b in walk(call):
+        if b['k'] == 'Block' and 'format_args' in str(b.get('exp')) and b['stmts']:
+            for st in b['stmts']:
+                if st['k'] == 'Let' and st.get('init') is not None and strip(st['init'])['k'] == 'Tuple' and args is None: args = strip(st['init'])['fields']
+    try: text = engine_u.decode_template(tm[0]['value'])
+    except (ValueError, IndexError, KeyError): return (None, [])
+    if args is None: return (text, [])
+    parts = text.split('{}')
+    if len(parts) != len(args) + 1: return (None, list(args))
+    res = parts[0]; rest = []
+    for a, nxt in zip(args, parts[1:]):
+        a0 = strip(a)
+        if a0['k'] == 'Literal' and a0.get('lit') == 'Str': res += a0['value']
+        else: res += '{}'; rest.append(a)
+        res += nxt
+    return (res, rest)
+
 def rule_graph_writers(F, R):
     """C18 writers: every edge of the selection is written once, source first: `a,b` (edge list), `a -- b` inside `graph G {}` when
     undirected, `a -> b` inside `digraph G {}` otherwise; the selection written is the one that was generated / converted / coloured."""
@@ -1049,21 +1098,18 @@ def rule_graph_writers(F, R):
                     break
             for x in walk(e):
                 if x['k'] == 'Call' and (callee_name(x) or '').endswith('write_fmt'):
-                    tup = [y for y in walk(x) if y['k'] == 'Tuple' and len(y['fields']) == 2]
-                    tm = [y for y in walk(x) if y['k'] == 'Literal' and y.get('lit') == 'ByteStr']
-                    if tup and tm:
+                    text, rest = written_text(x)
+                    if text is not None and len(rest) == 2:
                         flds = []
-                        for f in tup[0]['fields']:
+                        for f in rest:
                             g = strip(f)
                             if g['k'] in ('VarRef', 'UpvarRef') and g['var'] in comp: flds.append(('<edge>', comp[g['var']]))
                             else: flds.append((root_var(g['lhs']) if g['k'] == 'Field' else None, g.get('field') if g['k'] == 'Field' else None))
-                        try: text = engine_u.decode_template(tm[0]['value'])
-                        except Exception: text = None
                         found.append((tuple(ctx), text, flds, src, x['loc']))
             return
         if e['k'] == 'Call' and (callee_name(e) or '').endswith('write_fmt'):
-            lits = [y['value'] for y in walk(e) if y['k'] == 'Literal' and y.get('lit') == 'Str']
-            if lits: found.append((tuple(ctx), lits[0], None, None, e['loc']))
+            text, rest = written_text(e)
+            if text is not None and not rest: found.append((tuple(ctx), text, None, None, e['loc']))
         for ch in children(e): visit(ch, ctx)
     visit(t['body'], [])
     edge_writes = [f for f in found if f[2] is not None]
